@@ -96,13 +96,17 @@ var builtinFunctions = map[XmlName]Function{
 }
 
 func last(context Context, args ...Result) (Result, error) {
+	if c, ok := context.(*exprContext); ok {
+		return Number(c.contextSize), nil
+	}
+
 	nodeSet, ok := context.Result().(NodeSet)
 
 	if !ok {
 		return nil, errQueryNonNodeset
 	}
 
-	return Number(len(nodeSet)) + 1, nil
+	return Number(len(nodeSet)), nil
 }
 
 func position(context Context, args ...Result) (Result, error) {
